@@ -1334,12 +1334,13 @@ impl Blockchain {
             .await;
 
         let block = self.blocks.get(block_hash).unwrap();
-        if block.has_checkpoint {
-            info!("block has checkpoint. cannot wind over this block");
-            return WindingResult::FinishWithFailure;
-        }
         let does_block_validate;
-        {
+        if block.has_checkpoint {
+            // handled like a block that does not validate, so that whatever has been unwound or wound
+            // so far is rolled back instead of being left half-way
+            info!("block has checkpoint. cannot wind over this block");
+            does_block_validate = false;
+        } else {
             debug!("winding hash validates: {:?}", block_hash.to_hex());
             let genesis_period = configs.get_consensus_config().unwrap().genesis_period;
             let validate_against_utxo = self.has_total_supply_loaded(genesis_period);
@@ -1586,6 +1587,14 @@ impl Blockchain {
                 .unwrap();
             if block.has_checkpoint {
                 info!("block has checkpoint. cannot unwind over this block");
+                if !wind_failure && current_unwind_index > 0 {
+                    // the blocks before this one are already unwound : wind them back in before giving up
+                    return WindingResult::Wind(
+                        current_unwind_index - 1,
+                        true,
+                        WALLET_NOT_UPDATED,
+                    );
+                }
                 return WindingResult::FinishWithFailure;
             }
             block
